@@ -26,6 +26,40 @@ def has_property_value(v, depth=0):
     return False
 
 
+CONTAINERS = (dict, list, tuple, set, frozenset)
+
+
+def has_container_attrs(v, depth=0):
+    """an instance of a subclass of a builtin container that carries attributes of its own, anywhere inside v"""
+    if depth > 8:
+        return False
+    if isinstance(v, CONTAINERS) and type(v) not in CONTAINERS and getattr(v, "__dict__", None):
+        return True
+    if isinstance(v, dict):
+        return any(has_container_attrs(x, depth + 1) for x in v.values())
+    if isinstance(v, (list, tuple)):
+        return any(has_container_attrs(x, depth + 1) for x in v)
+    if hasattr(v, "__dict__") and not isinstance(v, type):
+        try:
+            return has_container_attrs(vars(v), depth + 1)
+        except Exception:
+            return False
+    return False
+
+
+def container_attr_objects():
+    """instances of container subclasses with attributes set on the instance (not restored by the constructor)"""
+    from ..objgen import U
+
+    d = U.MyDict(a=1, b=[2])
+    d.tag = "t"
+    l = U.MyList([1, 2])
+    l.origin = {"file": "x.csv", "rows": 2}
+    t = U.MyTuple((1, 2))
+    t.unit = "m"
+    return [("mydict-attr", d), ("mylist-attr", l), ("mytuple-attr", t), ("nested", {"k": [l, (d,)]}), ("in-object", U.Plain(d, 1))]
+
+
 def check_value(v):
     before = valuecheck.snapshot(v)
     r = valuecheck.cycle(v)
@@ -108,7 +142,23 @@ def run(ctx):
                 ofails.append((m, dict(kind="value", repr=repr(w)[:2000], seed=ctx.seed)))
         if len(ofails) > 4:
             break
+    # attributes set on instances of list/dict/tuple subclasses
+    ATTR_KEY = "container-subclass-attributes-dropped"
+    for name, w in container_attr_objects():
+        try:
+            msgs = check_value(w)
+        except RecursionError:
+            continue
+        for m in msgs:
+            if m.startswith("silently-different") and ".__dict__" in m and has_container_attrs(w) and any(f["key"] == ATTR_KEY for f in findings):
+                known.add(ATTR_KEY)
+                continue
+            ofails.append((m, dict(kind="value", repr=repr(w)[:2000], object=name, seed=ctx.seed)))
     for f in findings:
+        if f["key"] == ATTR_KEY:
+            if ATTR_KEY in known:
+                ctx.known_finding(f["key"], f["what"])
+            continue
         if f["key"] in known or f["key"] == "dict-property-values-dropped":
             # replay the recorded witness
             r = valuecheck.cycle({"p": property(lambda s: 1)})
